@@ -97,7 +97,8 @@ impl Cache for MemoryStore {
                     }
                 }
                 Entry::Vacant(vacant) => {
-                    record.header.cas += 1;
+                    // a client may send any token: u64::MAX must neither trap nor wrap to 0
+                    record.header.cas = record.header.cas.saturating_add(1);
                     record.header.timestamp = self.timer.timestamp();
                     let cas = record.header.cas;
                     vacant.insert(record);
